@@ -337,7 +337,7 @@ def run(ck):
     if not ok:
         ck.violation("harness-build", "harness for %s does not build:\n%s" % (pkg, binp[-1500:]), replay={"log": binp[-3000:]}, found_input=False)
         return
-    cases = gen_cases(ck.rng, 250 if quick else 3000)
+    cases = gen_cases(ck.rng, 250 if quick else 2000)
     if ck.replay_file:
         cases = json.load(open(ck.replay_file))["replay"].get("cases", [])
     inp, outp = os.path.join(ck.work, "in.jsonl"), os.path.join(ck.work, "out.jsonl")
@@ -385,19 +385,24 @@ def run(ck):
             ck.violation("proof-broken", "Coq development %s no longer checks:\n%s" % (grp, log[-1200:]),
                          replay={"broken": "coq/" + grp, "log": log[-3000:]}, found_input=False)
         return
-    lines = ["From Common Require Import Base.", "From SqlGen Require Import Model.", "Close Scope string_scope.", "Open Scope N_scope."]
-    for i, (c, o) in enumerate(zip(cases, obs)):
-        lines.append("Definition m%d : res out := %s." % (i, model_expr(c, o.get("toks") or [])))
-        lines.append("Definition o%d : str := %s." % (i, vf.vN(bytes.fromhex(o["text"]))))
-    idx = range(len(cases))
-    corr = " ++ ".join("chk %d m%d %s o%d" % (i, i, cbool(obs[i]["err"]), i) for i in idx) or "[]"
-    lexo = " ++ ".join("lexchk %d m%d %s o%d" % (i, i, cbool(obs[i]["err"]), i) for i in idx) or "[]"
-    fuel = " ++ ".join("match m%d with Fuel => [%d%%nat] | _ => [] end" % (i, i) for i in idx) or "[]"
-    okk, res = vf.coq_eval(GROUP, ck.work, "cases", "\n".join(lines),
-                           {"corr": "(%s : list nat)" % corr, "lex": "(%s : list nat)" % lexo, "fuel": "(%s : list nat)" % fuel})
-    if not okk:
-        ck.violation("correspondence-eval", "model evaluation failed:\n" + str(res)[-1500:], replay={"log": str(res)[-3000:]}, found_input=False)
-        return
+    res = {"corr": [], "lex": [], "fuel": []}
+    CH = 400
+    for lo in range(0, len(cases), CH):
+        lines = ["From Common Require Import Base.", "From SqlGen Require Import Model.", "Close Scope string_scope.", "Open Scope N_scope."]
+        idx = range(lo, min(lo + CH, len(cases)))
+        for i in idx:
+            lines.append("Definition m%d : res out := %s." % (i, model_expr(cases[i], obs[i].get("toks") or [])))
+            lines.append("Definition o%d : str := %s." % (i, vf.vN(bytes.fromhex(obs[i]["text"]))))
+        corr = " ++ ".join("chk %d m%d %s o%d" % (i, i, cbool(obs[i]["err"]), i) for i in idx) or "[]"
+        lexo = " ++ ".join("lexchk %d m%d %s o%d" % (i, i, cbool(obs[i]["err"]), i) for i in idx) or "[]"
+        fuel = " ++ ".join("match m%d with Fuel => [%d%%nat] | _ => [] end" % (i, i) for i in idx) or "[]"
+        okk, part = vf.coq_eval(GROUP, ck.work, "cases%d" % lo, "\n".join(lines),
+                                {"corr": "(%s : list nat)" % corr, "lex": "(%s : list nat)" % lexo, "fuel": "(%s : list nat)" % fuel})
+        if not okk:
+            ck.violation("correspondence-eval", "model evaluation failed:\n" + str(part)[-1500:], replay={"log": str(part)[-3000:]}, found_input=False)
+            return
+        for k in res:
+            res[k] += part[k]
     if os.environ.get("C14_DEV"):
         for i in sorted(set(res["lex"]) | set(res["corr"])):
             print("DEV", i, "lex" if i in res["lex"] else "", "corr" if i in res["corr"] else "", json.dumps(cases[i]), "=>", obs[i]["err"], bytes.fromhex(obs[i]["text"]))
